@@ -285,29 +285,36 @@ theorem getLines_lower {src : List Char} {offs : List LineOffset}
     have hfront := trimSrc_front c _ tail htail hB hlt
     simp only [List.length_append, List.length_replicate] at hfront
     intro pos x hpos hx
-    obtain ⟨i, k, v', h1, h2, h3, _⟩ := C05.lineOf_spec _ hw pos
-    rw [C05.getSourcePosFor_of_line _ pos i k v' h1 h2 h3] at hx
+    -- every entry: the affine value of `pos` in its segment, and (for an entry behind `pos`: the
+    -- clamp of `get_source_pos_for`) its own source offset, are at or after `first_nonspace`
+    have hent : ∀ k v', (k, v') ∈ mapOf indent 0 ((ob, v) :: rest) →
+        (k ≤ pos → ob.firstNonspace ≤ v' + (pos - k)) ∧ (pos < k → ob.firstNonspace ≤ v') := by
+      intro k v' hmem
+      simp only [mapOf, hcc, List.cons_append, List.mem_cons, List.mem_append] at hmem
+      rcases hmem with he | he | he
+      · simp only [Prod.mk.injEq] at he
+        obtain ⟨rfl, rfl⟩ := he
+        constructor <;> intro _ <;> omega
+      · split at he
+        · simp only [List.mem_cons, List.not_mem_nil, or_false, Prod.mk.injEq] at he
+          obtain ⟨rfl, rfl⟩ := he
+          constructor <;> intro _ <;> omega
+        · simp at he
+      · have := mapOf_vals_ge indent ob.lineEnd rest _ (by
+          intro ov hov
+          obtain ⟨j, hj, rfl⟩ := List.getElem_of_mem hov
+          have := (hvs (j + 1) (by simp; omega)).1
+          simp only [List.getElem_cons_succ] at this
+          have := hord b (b + (j + 1)) _ _ (by omega) hob this
+          omega) _ he
+        simp only at this
+        constructor <;> intro _ <;> omega
+    obtain ⟨i, k, v', h1, h2, h3, h4⟩ := C05.lineOf_spec _ hw pos
+    rw [C05.getSourcePosFor_of_line_clamp _ pos i k v' h1 h2 h3] at hx
     simp only [Except.ok.injEq] at hx
     subst hx
-    have hmem := List.mem_of_getElem? h2
-    simp only [mapOf, hcc, List.cons_append, List.mem_cons, List.mem_append] at hmem
-    rcases hmem with he | he | he
-    · simp only [Prod.mk.injEq] at he
-      obtain ⟨rfl, rfl⟩ := he
-      omega
-    · split at he
-      · simp only [List.mem_cons, List.not_mem_nil, or_false, Prod.mk.injEq] at he
-        obtain ⟨rfl, rfl⟩ := he
-        omega
-      · simp at he
-    · have := mapOf_vals_ge indent ob.lineEnd rest _ (by
-        intro ov hov
-        obtain ⟨j, hj, rfl⟩ := List.getElem_of_mem hov
-        have := (hvs (j + 1) (by simp; omega)).1
-        simp only [List.getElem_cons_succ] at this
-        have := hord b (b + (j + 1)) _ _ (by omega) hob this
-        omega) _ he
-      simp only at this
-      omega
+    apply C05.clampNext_ge _ _ _ _ ((hent k v' (List.mem_of_getElem? h2)).1 h3)
+    intro k2 v2 hn
+    exact (hent k2 v2 (List.mem_of_getElem? hn)).2 (h4 (i + 1) k2 v2 (by omega) hn)
 
 end MdIt.C05I
